@@ -19,6 +19,8 @@ def parse_type(ty):
     m = re.match(r"^const\((.*)\)$", ty)
     if m:
         return {"kind": "const", "value": ast.literal_eval(m.group(1))}
+    if ty.startswith("(") and ty.endswith(")"):
+        return {"kind": "tuple", "items": [parse_type(t) for t in ty[1:-1].split(",")]}
     m = re.match(r"^(\w+)\[(.*)\]$", ty)
     if m:
         dims = []
@@ -75,6 +77,8 @@ def entry_state(ex, c, fs):
                 st.assume(z3.ForAll(ks, z3.And(rsel >= lo, rsel <= hi), patterns=[rsel]))
         elif t["kind"] == "scalar":
             st.env[p] = z3.Const(p, ctx.elem_sort(t["dtype"]))
+        elif t["kind"] == "tuple":
+            st.env[p] = Tup([z3.Const(f"{p}!{i}", ctx.elem_sort(it["dtype"])) for i, it in enumerate(t["items"])])
         else:
             st.env[p] = t["value"]
     for g, v in ghost.items():
@@ -128,7 +132,12 @@ def verify_function(c, extra_options=None):
                 if c.exit_hints:
                     ex.apply_hints(cur, c.exit_hints, fs.path)
                 for nm, e in list(c.ensures.items()) + list(c.local_ensures.items()):
-                    g = ex.spec_eval(e, cur)
+                    try:
+                        g = ex.spec_eval(e, cur)
+                    except Unsupported as exc:
+                        if nm in c.local_ensures and "unbound name" in str(exc):
+                            continue      # a clause about locals that do not exist on this return path
+                        raise
                     by = (c.options.get("by") or {}).get(nm)
                     ex.emit(cur, "post", nm, g, fs.path, by=by)
                 for p in c.track_written:
